@@ -457,4 +457,20 @@ theorem c04_from_string_lenient_witness :
     SV.IDStr.fromString ((SV.IDStr.idString 171 10).set 3 103) = none ∧
     SV.IDStr.fromString ((SV.IDStr.idString 171 10).take 32) = none := by decide
 
+/-- **the proxy -> store hop of a fetch is the identity on IDs**: the store's `extractIDs` reads from the request
+`Ingestor.makeFetchReq` builds exactly the IDs and hints the proxy was asked for, in order - for every list of IDs -/
+theorem c04_fetch_hop_identity (ids : List SV.IDStr.IDSrc)
+    (h : ∀ i, i ∈ ids → i.mid < 18446744073709551616 ∧ i.rid < 18446744073709551616) :
+    SV.IDStr.extractIDs (SV.IDStr.makeFetchReq ids) = some ids :=
+  SV.IDStr.extractIDs_makeFetchReq ids h
+
+/-- a store reading only the un-hinted list (`extractIDsNoHints`) gets the same IDs without hints -/
+theorem c04_fetch_hop_no_hints (ids : List SV.IDStr.IDSrc)
+    (h : ∀ i, i ∈ ids → i.mid < 18446744073709551616 ∧ i.rid < 18446744073709551616) :
+    SV.IDStr.extractNo (SV.IDStr.makeFetchReq ids).ids = some (ids.map fun i => ⟨i.mid, i.rid, []⟩) :=
+  SV.IDStr.extractNo_ids ids h
+
+example : SV.IDStr.extractIDs (SV.IDStr.makeFetchReq [⟨5, 7, [97]⟩, ⟨3, 2, []⟩]) = some [⟨5, 7, [97]⟩, ⟨3, 2, []⟩] := by
+  decide
+
 end SV.Props.C04
